@@ -241,6 +241,7 @@ class World:
         self.total_events = 0
         self.trace: list[tuple[str, str]] = []
         self.sticky: dict[str, tuple[str, int]] = {}
+        self.armed: dict[str, dict] = {}
         self._baseline = set(sys.modules)
 
     # -- lifecycle ---------------------------------------------------------
@@ -406,6 +407,14 @@ class World:
             self.log.add("ev", proc.name, label)
         key = f"{proc.name}#{proc.fs_calls}"
         fault = self.plan.get(key)
+        arm = self.armed.get(proc.name)
+        if fault is None and arm is not None and kind in arm["kinds"]:
+            # "the nth call of one of these kinds from now on"
+            arm["nth"] -= 1
+            if arm["nth"] <= 0:
+                del self.armed[proc.name]
+                fault = {"kind": arm["kind"], "span": arm.get("span", 1),
+                         "force": True}
         if fault is None:
             st = self.sticky.get(proc.name)
             if st is not None and st[1] > 0 and kind in APPLICABLE[st[0]]:
@@ -429,7 +438,7 @@ class World:
             if self.on_crash is not None:
                 self.on_crash(proc, label)
             raise SimCrash()
-        if kind in APPLICABLE.get(fk, ()):
+        if kind in APPLICABLE.get(fk, ()) or fault.get("force"):
             self.fired[fk] = self.fired.get(fk, 0) + 1
             self.log.add("FAULT", fk, proc.name, label)
             if fault.get("span", 1) > 1:
